@@ -91,12 +91,85 @@ def replay_seq(tier, payload):
         wm.cleanup()
 
 
+LOCK_LISTS = ["object_locked_pids", "object_locked_cids", "reference_locked_pids", "metadata_locked_docs"]
+
+
+def shared_lock_state(M, mk_root, mp, setenv):
+    """two store instances (different roots) created in one interpreter must not share their locked-identifier lists"""
+    setenv(mp)
+    a = M.FileHashStore(dict(store_path=mk_root("a"), store_depth=3, store_width=2, store_algorithm="SHA-256",
+                             store_metadata_namespace="ns"))
+    b = M.FileHashStore(dict(store_path=mk_root("b"), store_depth=3, store_width=2, store_algorithm="SHA-256",
+                             store_metadata_namespace="ns"))
+    setenv(False)
+    bad = []
+    for n in LOCK_LISTS:
+        name = n + ("_mp" if mp else "_th")
+        la, lb = getattr(a, name, None), getattr(b, name, None)
+        if la is None or lb is None:
+            bad.append((name, "missing"))
+            continue
+        la.append("probe-identifier")
+        shared = "probe-identifier" in list(lb)
+        la.remove("probe-identifier")
+        if shared:
+            bad.append((name, "an identifier locked through one store instance is locked in the other"))
+    return bad
+
+
+def independence(run):
+    from engine import fault as _f
+    for mp in (False, True):
+        M = loader.load("filehashstore.py")
+        sh = symfs.Shim(symfs.FS(symfs.ModelBackend()))
+        sh.install(M, dict(threading=_f.SEQ_THREADING, multiprocessing=_f.SEQ_MULTIPROCESSING))
+
+        def setenv(on, sh=sh):
+            if on:
+                sh.fs.env["USE_MULTIPROCESSING"] = "True"
+            else:
+                sh.fs.env.pop("USE_MULTIPROCESSING", None)
+        bad = shared_lock_state(M, lambda x: "/st_" + x, mp, setenv)
+        run.oblige(not bad)
+        run.case(("independent-instances", mp), dict(check="two store instances do not share lock state",
+                                                     multiprocessing=mp, shared=bad))
+        if bad:
+            run.fail("two store instances in one interpreter share lock state :: %s mode :: %s" % (
+                "multiprocessing" if mp else "threading", ",".join(b[0] for b in bad)),
+                dict(shared=bad), dict(harness="independence", mp=mp, clauses=["independence"]))
+
+
+def replay_independence(payload):
+    import logging
+    import os
+    import shutil
+    from engine.universe import scratch_root
+    logging.disable(logging.CRITICAL)
+    MN = loader.load("filehashstore.py")
+    root = scratch_root()
+
+    def setenv(on):
+        if on:
+            os.environ["USE_MULTIPROCESSING"] = "True"
+        else:
+            os.environ.pop("USE_MULTIPROCESSING", None)
+    try:
+        bad = shared_lock_state(MN, lambda x: root + "/st_" + x, bool(payload.get("mp")), setenv)
+        return bool(bad), ("native run (unpatched code, real %s primitives): two FileHashStore instances on different "
+                           "directories: %s" % ("multiprocessing" if payload.get("mp") else "threading", bad))
+    finally:
+        os.environ.pop("USE_MULTIPROCESSING", None)
+        shutil.rmtree(root, ignore_errors=True)
+
+
 def main(tier, replay_payload=None):
     bound = 1
 
     def replayer(p):
         if p.get("harness") == "c16seq":
             return replay_seq(tier, p)
+        if p.get("harness") == "independence":
+            return replay_independence(p)
         mod = C07 if p.get("family") == "C07" else C12
         return conc.replay_schedule(mod.W_ARGS, mod.scenarios_for(tier), p["k"], p["log"], p["bound"],
                                     p["clauses"][0], mp=True)
@@ -120,6 +193,7 @@ def main(tier, replay_payload=None):
                          dict(harness="c16seq", vals=r["vals"], clauses=cl))
     from engine import battery
     battery.validate(run)
+    independence(run)
     for fam, mod in (("C07", C07), ("C12", C12)):
         outs = conc.explore_scenarios(mod.W_ARGS, mod.scenarios_for(tier), bound, mp=True)
         before = set(run.failures)
